@@ -324,6 +324,15 @@ example : wellTypedM frontMemNopShift = true ∧
        .base (.load 10 .i64 1 8), .base (.bin .iadd 11 .i64 10 6), .extload .uload8 12 .i32 11 0, .base (.ret [12])]⟩ = true := by
   decide
 
+/-- **the hypothesis `size < 2^32` of the embedding is needed (finding F13, known)**: when the module context says
+that the memory is 2^32 bytes long, the lowered `i32.load8_u` at address 0 — in bounds for such a memory — exits with
+`ExitCodeMemoryOutOfBounds`: the length is read with `Uload32`, which sees 0 -/
+theorem frontmem_len_4gib_witness :
+    outTrap (runM noCalls (lowerMem { params := [.i32], results := [.i32], locals := [],
+                                      body := [.base (.localGet 0), .load .i32Load8U 0] })
+      [0xec, 0x3c00, 0] (memStore (memStore [] 0x3c08 0x100000000000 8) 0x3c10 (2 ^ 32) 8)).1 = some codeMemOOB := by
+  decide
+
 example : WellFormedM (lowerMem frontMemExample) := frontmem_wellFormed _ (by decide)
 
 /-- the theorems instantiated on the example, for all arguments -/
